@@ -236,6 +236,51 @@ fn triple_key(d: &mut Dom, i: usize, j: usize, k: usize) -> String {
     format!("assoc:{family}:{}", parts.join(" | "))
 }
 
+const PACKED_LAYOUTS: [&[(usize, usize)]; 5] = [&[(0, 160), (160, 96)], &[(0, 256)], &[(0, 8), (8, 248)], &[(0, 8)], &[(16, 16), (0, 16)]];
+
+fn packed_names() -> Vec<String> {
+    let mut v = Vec::new();
+    for li in 0..PACKED_LAYOUTS.len() {
+        v.push(format!("packed{li}"));
+        v.push(format!("struct{li}"));
+    }
+    v
+}
+
+/// merge(x, y) and merge(y, x) for two of the packed / struct encodings, each reduced to what survives any choice of
+/// fresh variables: conflict or not, the struct flag, the span layout.
+fn packed_pair(i: usize, j: usize) -> Result<(String, String), String> {
+    use sle::tc::expression::Span;
+    let mut st = TypeCheckerState::empty();
+    let mut fresh = || st.register(RSV::new_value(0, Provenance::Synthetic));
+    let (a, b, c, e, parent) = (fresh(), fresh(), fresh(), fresh(), fresh());
+    let build = |k: usize| -> TE {
+        let (li, flag) = (k / 2, k % 2 == 1);
+        let vars = if flag { [c, e] } else { [a, b] };
+        let spans: Vec<Span> = PACKED_LAYOUTS[li].iter().enumerate().map(|(n, (o, z))| Span::new(vars[n % 2], *o, *z)).collect();
+        if flag {
+            TE::struct_of(spans)
+        } else {
+            TE::packed_of(spans)
+        }
+    };
+    let shape = |e: &TE| -> String {
+        match e {
+            TE::Conflict { .. } => "conflict".to_string(),
+            TE::Packed { types, is_struct } => {
+                let mut l: Vec<(usize, usize)> = types.iter().map(|s| (s.offset, s.size)).collect();
+                l.sort();
+                format!("struct={is_struct} {l:?}")
+            }
+            other => format!("{other:?}"),
+        }
+    };
+    let (x, y) = (build(i), build(j));
+    let ab = guarded(|| merge(x.clone(), y.clone(), parent, &mut st)).map(|m| shape(&m.expression))?;
+    let ba = guarded(|| merge(y.clone(), x.clone(), parent, &mut st)).map(|m| shape(&m.expression))?;
+    Ok((ab, ba))
+}
+
 pub struct C16;
 
 impl Check for C16 {
@@ -293,6 +338,29 @@ impl Check for C16 {
               }
             }
             d.parent = unrelated;
+            // beyond the stated domain, order only: packed encodings and structs of equal and of different layouts
+            let n_packed = packed_names().len();
+            for i in 0..n_packed {
+                for j in 0..n_packed {
+                    ctx.case(|| json!({"packed_pair": [i, j]}));
+                    ctx.count("evaluations", 1);
+                    ctx.count("packed_pairs", 1);
+                    let names = packed_names();
+                    match packed_pair(i, j) {
+                        Ok((p, q)) if p == q => {}
+                        Ok((p, q)) => {
+                            let mut parts = vec![names[i].clone(), names[j].clone()];
+                            parts.sort();
+                            ctx.violation(
+                                format!("comm:packed:{{{}}}", parts.join(" . ")),
+                                format!("merge({}, {}) = {p} but flipped = {q}", names[i], names[j]),
+                                json!({"packed_pair": [i, j]}),
+                            );
+                        }
+                        Err(p) => ctx.violation(format!("panic:{}", panic_site(&p)), format!("merge panicked: {p}"), json!({"packed_pair": [i, j]})),
+                    }
+                }
+            }
             return;
         }
         let i = chunk;
@@ -332,7 +400,7 @@ impl Check for C16 {
     }
     fn coverage(&self, _tier: Tier, total: &Ctx) -> Map<String, Value> {
         let rule = "the whole stated domain: Any, dynamic bytes, 4 open usages x 6 widths + 4 fixed-width usages, 4 mappings / 2 dynamic \
-                    arrays / 4 fixed arrays over {v0, v1}, one conflict (41 elements); ALL ordered pairs (commutativity; with the evidence about an unrelated variable, about v0 and about v1) and ALL ordered \
+                    arrays / 4 fixed arrays over {v0, v1}, one conflict (41 elements); ALL ordered pairs (commutativity; with the evidence about an unrelated variable, about v0 and about v1) ; beyond the stated domain: all ordered pairs of 10 packed encodings / structs (5 span layouts), compared by conflict-ness, struct flag and span layout) and ALL ordered \
                     triples (associativity) through the real unification::merge, compared after normalisation (conflicts collapsed, \
                     variables replaced by class representative under the emitted equalities, partition of {v0,v1}; only conflict-ness \
                     when a side conflicts). non-trivial = pairwise-distinct elements, none of them Any, result not a conflict on both \
@@ -348,6 +416,20 @@ impl Check for C16 {
     fn replay(&self, replay: &Value) -> bool {
         let mut d = domain();
         let c = &replay["case"];
+        if let Some(p) = c.get("packed_pair") {
+            let (i, j) = (p[0].as_u64().unwrap() as usize, p[1].as_u64().unwrap() as usize);
+            let names = packed_names();
+            return match packed_pair(i, j) {
+                Ok((x, y)) => {
+                    println!("merge({}, {}) = {x}\nmerge({}, {}) = {y}", names[i], names[j], names[j], names[i]);
+                    x != y
+                }
+                Err(e) => {
+                    println!("panicked: {e}");
+                    true
+                }
+            };
+        }
         if let Some(p) = c.get("pair") {
             let (i, j) = (p[0].as_u64().unwrap() as usize, p[1].as_u64().unwrap() as usize);
             match c["about"].as_u64() {
